@@ -29,8 +29,10 @@ Expect(r) ==
              r.frames[j].id = r.expect[k].id /\ r.frames[j].kind = "result" /\ r.frames[j].result = r.expect[k].result
        THEN {} ELSE {"WrongResult"}
   ELSE {}
+\* the node was sent at most so many pay commands in the run (C05: a lost reply is no licence to pay again)
+PayCount(r) == IF "pay_calls" \in DOMAIN r /\ r.pay_calls > r.pay_calls_max THEN {"PaidAgain"} ELSE {}
 Next == /\ l <= N /\ l' = l + 1
-        /\ LET b == Bad(Rec[l]) \cup Expect(Rec[l]) IN b # {} => PrintT(<<"E2EVIOL", Rec[l].run, b>>)
+        /\ LET b == Bad(Rec[l]) \cup Expect(Rec[l]) \cup PayCount(Rec[l]) IN b # {} => PrintT(<<"E2EVIOL", Rec[l].run, b>>)
 Spec == Init /\ [][Next]_l
 Accepted == TLCGet("stats").diameter - 1 = N
 =============================================================================
